@@ -15,7 +15,11 @@ cmd = ["/venv/bin/python", "-m", "pytest", "-ra", "-q", "-p", "no:cacheprovider"
        "--continue-on-collection-errors", f"--junitxml={out}"]
 if repo != "/repo":
     env["PYTHONPATH"] = repo
-subprocess.run(cmd, cwd=repo, env=env, stdout=subprocess.DEVNULL, stderr=subprocess.DEVNULL)
+import fcntl
+# the integration tests start a mock ssh server on a fixed port: serialise concurrent baseline runs
+with open("/tmp/scrapli-baseline.lock", "w") as _lk:
+    fcntl.flock(_lk, fcntl.LOCK_EX)
+    subprocess.run(cmd, cwd=repo, env=env, stdout=subprocess.DEVNULL, stderr=subprocess.DEVNULL)
 passed = set()
 for tc in ET.parse(out).getroot().iter("testcase"):
     if not any(ch.tag in ("failure", "error", "skipped") for ch in tc):
